@@ -114,7 +114,7 @@ func recBrief(r *shapes.Rec) string {
 var defaultWeights = map[string]int{
 	"save": 30, "update": 25, "resave": 5, "del": 10, "delall": 1, "sdel": 4, "many": 6, "bulk": 3,
 	"reads": 6, "sweep": 6, "hold": 0, "collect": 0, "reopen": 5, "abandon": 2, "flush": 0, "sleep": 0, "create": 2,
-	"getabsent": 4, "await": 0, "small": 5, "repair": 2, "misuse": 2,
+	"getabsent": 4, "await": 0, "small": 5, "repair": 2, "misuse": 2, "drop": 1,
 }
 
 type gen struct {
@@ -156,7 +156,7 @@ func GenOps(r *simrt.Rand, cfg *Config, pools *Pools, prof *Profile) []Op {
 		weights["abandon"] = 0
 	}
 	kinds := []string{"save", "update", "resave", "del", "delall", "sdel", "many", "bulk", "reads", "sweep", "hold", "collect",
-		"reopen", "abandon", "flush", "sleep", "create", "getabsent", "await", "small", "repair", "misuse"}
+		"reopen", "abandon", "flush", "sleep", "create", "getabsent", "await", "small", "repair", "misuse", "drop"}
 	total := 0
 	for _, k := range kinds {
 		total += weights[k]
@@ -283,6 +283,9 @@ func (g *gen) genOp(k string) Op {
 		return Op{K: "sweep"}
 	case "repair":
 		return Op{K: "repair"}
+	case "drop":
+		g.live, g.dead = nil, append(g.dead, g.live...)
+		return Op{K: "drop"}
 	case "misuse":
 		return Op{K: "misuse", Mode: []string{"assignall", "assign", "assignone", "assignunique"}[r.Intn(4)]}
 	case "getabsent":
